@@ -229,6 +229,13 @@ def _is_numeric_cast_type(dtype):
     )
 
 
+def _temporary_label(columns, label):
+    # Label of a helper column that does not clash with a column of the user
+    while label in columns:
+        label = "_" + label
+    return label
+
+
 class RearrangeByColumn(ShuffleBase):
     def _lower(self):
         frame = self.frame
@@ -275,11 +282,12 @@ class RearrangeByColumn(ShuffleBase):
         else:
             cs = [col for col in partitioning_index if col not in frame.columns]
             if len(cs) == 1:
-                frame = Assign(frame, "_partitions_0", frame.index)
+                index_label = _temporary_label(frame.columns, "_partitions_0")
+                frame = Assign(frame, index_label, frame.index)
                 partitioning_index = partitioning_index.copy()
                 idx = partitioning_index.index(cs[0])
-                partitioning_index[idx] = "_partitions_0"
-                drop_columns = ["_partitions_0"]
+                partitioning_index[idx] = index_label
+                drop_columns = [index_label]
 
         if dtypes is False:
             dtypes = {}
@@ -293,10 +301,11 @@ class RearrangeByColumn(ShuffleBase):
                 dtypes = None
 
         # Assign new "_partitions" column
+        label = _temporary_label(frame.columns, "_partitions")
         index_added = AssignPartitioningIndex(
             frame,
             partitioning_index,
-            "_partitions",
+            label,
             npartitions_out,
             dtypes,
             index_shuffle,
@@ -305,7 +314,7 @@ class RearrangeByColumn(ShuffleBase):
         # Apply shuffle
         shuffled = Shuffle(
             index_added,
-            "_partitions",
+            label,
             npartitions_out,
             ignore_index,
             self.method,
@@ -321,7 +330,7 @@ class RearrangeByColumn(ShuffleBase):
 
         # Drop "_partitions" column and return
         return shuffled[
-            [c for c in shuffled.columns if c not in ["_partitions"] + drop_columns]
+            [c for c in shuffled.columns if c not in [label] + drop_columns]
         ]
 
 
@@ -1078,10 +1087,11 @@ class SortValues(BaseSetIndexSortValues):
             ascending=self._divisions_ascending,
             na_position=self.na_position,
         )
-        assigned = Assign(self.frame, "_partitions", partitions)
+        label = _temporary_label(self.frame.columns, "_partitions")
+        assigned = Assign(self.frame, label, partitions)
         shuffled = Shuffle(
             assigned,
-            "_partitions",
+            label,
             npartitions_out=len(divisions) - 1,
             ignore_index=self.ignore_index,
             method=self.shuffle_method,
@@ -1173,23 +1183,23 @@ class SetPartition(SetIndex):
     def _lower(self):
         divisions = self.other._meta._constructor(self._divisions())
         partitions = _SetPartitionsPreSetIndex(self.other, divisions)
-        assigned = Assign(self.frame, "_partitions", partitions)
+        label = _temporary_label(self.frame.columns, "_partitions")
+        index_label = _temporary_label(self.frame.columns, "_index")
+        assigned = Assign(self.frame, label, partitions)
         if isinstance(self._other, Expr):
-            assigned = Assign(assigned, "_index", self._other)
+            assigned = Assign(assigned, index_label, self._other)
         shuffled = Shuffle(
             assigned,
-            "_partitions",
+            label,
             npartitions_out=len(self._divisions()) - 1,
             ignore_index=True,
             method=self.shuffle_method,
             options=self.options,
         )
-        shuffled = Projection(
-            shuffled, [c for c in assigned.columns if c != "_partitions"]
-        )
+        shuffled = Projection(shuffled, [c for c in assigned.columns if c != label])
 
         if isinstance(self._other, Expr):
-            drop, set_name = True, "_index"
+            drop, set_name = True, index_label
         else:
             drop, set_name = self.drop, self.other._meta.name
         kwargs = {
